@@ -90,13 +90,18 @@ class Run:
         rules breaks this property's behaviour as well (e.g. a stale cache behind the beam density).  Findings located in `files`
         are reported under this property with the rule id '<this>-via-<other rule>'; everything else is left to the other check."""
         import importlib
+        if getattr(Run, '_nested', 0):
+            return                      # an included check does not pull in further checks (two checks may include each other)
         mod = importlib.import_module('sa.rules.' + other_pid.lower())
         sub = Run(other_pid, self.tier)
+        Run._nested = getattr(Run, '_nested', 0) + 1
         try:
             mod.check(sub)
         except AnalysisError as e:
             self.notes.append('NOTE: included rules of %s could not run: %s' % (other_pid, e))
             return
+        finally:
+            Run._nested -= 1
         rule = '%s-via-%s' % (self.pid, other_pid)
         self.describe(rule, 'rules of %s applied to %s (%s)' % (other_pid, ', '.join(sorted(files)), why))
         known = {k['key'] for k in load_known() if 'key' in k}
